@@ -330,6 +330,29 @@ pub(super) fn resolve_function_signature(
   collector
 }
 
+const UNSPELLABLE_TYPE_PARAMETER_NAMES: [PStr; 8] = [
+  PStr::two_letter_literal(b"$0"),
+  PStr::two_letter_literal(b"$1"),
+  PStr::two_letter_literal(b"$2"),
+  PStr::two_letter_literal(b"$3"),
+  PStr::two_letter_literal(b"$4"),
+  PStr::two_letter_literal(b"$5"),
+  PStr::two_letter_literal(b"$6"),
+  PStr::two_letter_literal(b"$7"),
+];
+
+fn mentions_generic_type(type_: &Type, name: PStr) -> bool {
+  match type_ {
+    Type::Any(_, _) | Type::Primitive(_, _) => false,
+    Type::Generic(_, n) => *n == name,
+    Type::Nominal(t) => t.type_arguments.iter().any(|t| mentions_generic_type(t, name)),
+    Type::Fn(t) => {
+      t.argument_types.iter().any(|t| mentions_generic_type(t, name))
+        || mentions_generic_type(&t.return_type, name)
+    }
+  }
+}
+
 fn resolve_method_signature_recursive(
   global_cx: &GlobalSignature,
   interface_type: &NominalType,
@@ -349,18 +372,43 @@ fn resolve_method_signature_recursive(
       subst_mapping.insert(tparam.name, targ.dupe());
     }
     if let Some(info) = interface_cx.methods.get(&method_name) {
+      // A type parameter of the method must not capture a generic type of the same name inside
+      // the receiver's type arguments (`b.fold(..)` with `b: Box<A>` and `method <A> fold`):
+      // such a parameter gets a name that cannot be written in a program first.
+      let mut renaming = HashMap::new();
+      for (index, tparam) in info.type_parameters.iter().enumerate() {
+        if index < UNSPELLABLE_TYPE_PARAMETER_NAMES.len()
+          && interface_type.type_arguments.iter().any(|t| mentions_generic_type(t, tparam.name))
+        {
+          renaming.insert(tparam.name, UNSPELLABLE_TYPE_PARAMETER_NAMES[index]);
+        }
+      }
+      let renaming_subst = renaming
+        .iter()
+        .map(|(old, new)| (*old, Arc::new(Type::Generic(Reason::dummy(), *new))))
+        .collect::<HashMap<_, _>>();
       collector.push(MemberSignature {
         is_public: info.is_public,
         type_parameters: info
           .type_parameters
           .iter()
           .map(|tparam| {
-            let bound =
-              tparam.bound.as_ref().map(|t| type_system::subst_nominal_type(t, &subst_mapping));
-            TypeParameterSignature { name: tparam.name, bound }
+            let bound = tparam.bound.as_ref().map(|t| {
+              type_system::subst_nominal_type(
+                &type_system::subst_nominal_type(t, &renaming_subst),
+                &subst_mapping,
+              )
+            });
+            TypeParameterSignature {
+              name: renaming.get(&tparam.name).copied().unwrap_or(tparam.name),
+              bound,
+            }
           })
           .collect(),
-        type_: type_system::subst_fn_type(&info.type_, &subst_mapping),
+        type_: type_system::subst_fn_type(
+          &type_system::subst_fn_type(&info.type_, &renaming_subst),
+          &subst_mapping,
+        ),
       });
     }
     for super_type in &interface_cx.super_types {
